@@ -84,7 +84,8 @@ def run_shard(k, seed, tier):
     n = 170 if tier == 'quick' else 4000
     feats = (ALL_FEATURES if k % 2 else SEQ_FEATURES) - {'terminal', 'faults', 'bigvals'}
     strat = programs(features=feats, size=dict(main_stmts=10, funcs=4, decl_array_weight=24, break_weight=12, return_weight=8,
-                                             try_decl_array_weight=(3 if k % 4 == 1 else 24), defeat_call_weight=(14 if k % 4 == 1 else 4)))
+                                             try_decl_array_weight=(3 if k % 4 == 1 else 24), defeat_call_weight=(14 if k % 4 == 1 else 4),
+                                             exit_preempt_pct=(35 if k % 4 == 3 else 12)))
 
     def chk(case):
         if stats.evaluations % 150 == 0:
